@@ -11,6 +11,7 @@ import (
 	"runtime"
 	"strings"
 	"sync"
+	"syscall"
 
 	"github.com/ansible/receptor/pkg/verifhook"
 )
@@ -30,8 +31,16 @@ type StepCtl struct {
 	dead    []string // path prefixes of dead incarnations/processes: they never take a step again
 	crashAt map[string]*crashSpec
 	observe []func(kind, path string)
+	inject  []*injectSpec
 	Record  bool
 	stats   map[string]int64
+}
+
+type injectSpec struct {
+	kind  string
+	match string
+	fn    func(path string)
+	done  bool
 }
 
 type crashSpec struct {
@@ -74,6 +83,16 @@ func (c *StepCtl) Fired(name string) bool {
 	defer c.mu.Unlock()
 	s := c.crashAt[name]
 	return s != nil && s.fired
+}
+
+// InjectOnce arranges for fn to run on its own goroutine the next time a step of the given kind is reached on a
+// path containing match, *inside* that step's window: the stepping goroutine (which may hold locks of the code under
+// test) is held back for a few milliseconds of real time, so that fn either completes inside the window or is
+// blocked by whatever the code holds there.  fn must not depend on simulated time (no simulated pipes, no timers).
+func (c *StepCtl) InjectOnce(kind, match string, fn func(path string)) {
+	c.mu.Lock()
+	c.inject = append(c.inject, &injectSpec{kind: kind, match: match, fn: fn})
+	c.mu.Unlock()
 }
 
 // Observe registers a callback run synchronously on the stepping goroutine.
@@ -132,7 +151,22 @@ func (c *StepCtl) step(kind, path string) {
 		}
 	}
 	obs := c.observe
+	var inj *injectSpec
+	for _, i := range c.inject {
+		if !i.done && i.kind == kind && strings.Contains(path, i.match) {
+			i.done = true
+			inj = i
+			c.stats["fault_injected_in_window_"+kind]++
+			break
+		}
+	}
 	c.mu.Unlock()
+	if inj != nil {
+		go inj.fn(path)
+		// real time, not simulated: the fake clock must not move while the window is held open
+		ts := syscall.Timespec{Sec: 0, Nsec: 3_000_000}
+		_ = syscall.Nanosleep(&ts, nil)
+	}
 	if fire != nil {
 		if fire.onCrash != nil {
 			fire.onCrash()
